@@ -71,10 +71,18 @@ FLOAT_POOL = [0.5, 1.5, -2.5, 0.1, 0.2, 0.3, 1e-3, 123.456, -7.25, 3.0, 1e10, 1e
               2.0, -1.0, 10.0]
 
 
+def _moderate(f):
+    """keep |f| in {0} u [1e-6, 1e6]: intermediate overflow/underflow of double arithmetic is not judged"""
+    if f == 0 or abs(f) >= 1e-6:
+        return f
+    import math
+    return math.copysign(1e-6 + abs(f) * 1e5, f)
+
+
 def real_double(special=False):
     pool = list(FLOAT_POOL)
-    s = st.one_of(st.sampled_from(pool), st.floats(-100, 100, allow_nan=False, allow_infinity=False, width=64),
-                  st.floats(allow_nan=False, allow_infinity=False, min_value=-1e6, max_value=1e6))
+    s = st.one_of(st.sampled_from(pool), st.floats(-100, 100, allow_nan=False, allow_infinity=False, width=64).map(_moderate),
+                  st.floats(allow_nan=False, allow_infinity=False, min_value=-1e6, max_value=1e6).map(_moderate))
     if special:
         s = st.one_of(s, st.sampled_from([0.0, -0.0, float("inf"), float("-inf"), float("nan"), 5e-324, -5e-324,
                                           1.7976931348623157e308, 2.2250738585072014e-308, 1.0 + 2 ** -52]))
